@@ -116,7 +116,12 @@ def run(prog, rep, tier, repo):
         if got == want and diag_ok:
             rep.ok('penalty', key, 'ddbeta[i*p + i] += alpha')
         else:
-            rep.viol('penalty', key, 'information penalty is %s at %s, expected +alpha on the diagonal i*p+i' % (show_expr(got), show(st[0].target[2]) if st else '?'), site_of(f.body))
+            if len(st) == 1 and got != want:
+                rep.viol('penalty', key, 'information penalty is %s at %s, expected +alpha on the diagonal i*p+i' % (show_expr(got), show(st[0].target[2]) if st else '?'), site_of(f.body))
+            elif len(st) == 1 and _item_of(st[0].target[2]) and not diag_ok:
+                rep.viol('penalty', key, 'information penalty is %s at %s, expected +alpha on the diagonal i*p+i' % (show_expr(got), show(st[0].target[2])), site_of(f.body))
+            else:
+                rep.undecided('penalty', key, 'the diagonal update is not a single indexed store ddbeta[i*p + i] += alpha (%d stores): not read' % len(st), site_of(f.body), proof=False)
     rep.floor('penalty', 2, 'gradient and information penalties')
 
     # ------------------------------------------------------------------ D2 score form
@@ -689,7 +694,14 @@ def run(prog, rep, tier, repo):
                     okd = any(tag(q) == 'call' and q[1] == G + '::dispersion' for q in subterms(z[2][0]))
                     oki = tag(inv) == 'call' and inv[1].endswith('utils::invert_matrix') and any(tag(q) == 'field' and q[1] == me2 and q[2] == fields.get('information_matrix') for q in subterms(inv))
                     ok = okd and oki
-        (rep.ok if ok else rep.viol)('inference', key, 'covariance = dispersion * invert_matrix(information_matrix)' if ok else 'covariance is not dispersion x inverse information', site_of(g.body))
+        # read only when the scaling and the inversion are calls of this body itself; a body that delegates them to helpers is not read
+        direct = {short(c.path) for c in g.calls() if c.path}
+        if ok:
+            rep.ok('inference', key, 'covariance = dispersion * invert_matrix(information_matrix)')
+        elif 'svmul' in direct and 'invert_matrix' in direct:
+            rep.viol('inference', key, 'covariance is not dispersion x inverse information', site_of(g.body))
+        else:
+            rep.undecided('inference', key, 'covariance is not formed by svmul(.., invert_matrix(..)) in this body (calls: %s)' % sorted(direct)[:6], site_of(g.body), proof=False)
     g = prog.func(G + '::coef_standard_error')
     key = 'inference:standard-error'
     if g is not None:
@@ -700,7 +712,13 @@ def run(prog, rep, tier, repo):
             for z in subterms(v):
                 if tag(z) == 'call' and short(z[1]) == 'vsqrt' and tag(z[2][0]) == 'call' and z[2][0][1].endswith('utils::diag'):
                     ok = any(tag(q) == 'call' and q[1] == G + '::coef_covariance_matrix' for q in subterms(z[2][0]))
-        (rep.ok if ok else rep.viol)('inference', key, 'standard errors = vsqrt(diag(covariance))' if ok else 'standard errors are not sqrt of the covariance diagonal', site_of(g.body))
+        direct = {short(c.path) for c in g.calls() if c.path}
+        if ok:
+            rep.ok('inference', key, 'standard errors = vsqrt(diag(covariance))')
+        elif 'diag' in direct and 'coef_covariance_matrix' in direct:
+            rep.viol('inference', key, 'standard errors are not sqrt of the covariance diagonal', site_of(g.body))
+        else:
+            rep.undecided('inference', key, 'standard errors are not formed by vsqrt(diag(..)) in this body (calls: %s)' % sorted(direct)[:6], site_of(g.body), proof=False)
     g = prog.func(G + '::predict')
     key = 'inference:predict'
     if g is not None:
@@ -712,7 +730,13 @@ def run(prog, rep, tier, repo):
         with_off = [z for z in links if tag(z[2][1]) == 'call' and short(z[2][1][1]) == 'vadd' and _is_offsets(z[2][1][2][1], me2, fields)]
         plain = [z for z in links if tag(z[2][1]) == 'call' and z[2][1][1].endswith('utils::matmul') and z[2][1][2][0] == x2]
         ok = bool(with_off) and bool(plain) and all(tag(z[2][1][2][0]) == 'call' and z[2][1][2][0][1].endswith('utils::matmul') for z in with_off)
-        (rep.ok if ok else rep.viol)('inference', key, 'predict = inv_link(X.coef [+ offsets])' if ok else 'predict is not the inverse link of X.coef plus offsets', site_of(g.body))
+        direct = {short(c.path) for c in g.calls() if c.path}
+        if ok:
+            rep.ok('inference', key, 'predict = inv_link(X.coef [+ offsets])')
+        elif 'inv_link' in direct and 'matmul' in direct and 'vadd' in direct:
+            rep.viol('inference', key, 'predict is not the inverse link of X.coef plus offsets', site_of(g.body))
+        else:
+            rep.undecided('inference', key, 'predict does not call inv_link, matmul and vadd in its own body (calls: %s): not read' % sorted(direct)[:6], site_of(g.body), proof=False)
     rep.floor('inference', 4, 'dispersion, covariance, standard error, predict')
 
     # ------------------------------------------------------------------ D6 stride
